@@ -192,7 +192,7 @@ func vpH_C14_partial() {
 	seg := string([]byte{vpLetterCase()})
 	abs := IRI([]string{"http", "https", "HTTP"}[vpChoice(3)] + "://" + h + ".ex/" + seg)
 	var other IRI
-	switch vpChoice(9) {
+	switch vpChoice(12) {
 	case 0:
 		other = IRI("//" + h + ".ex/" + seg)
 	case 1:
@@ -209,6 +209,10 @@ func vpH_C14_partial() {
 		other = IRI("://" + h + ".ex/" + seg)
 	case 7:
 		other = IRI("")
+	case 9:
+		other = IRI(seg + "doe")
+	case 10:
+		other = IRI("urn:isbn:" + seg)
 	default:
 		other = IRI("//" + h + ".ex/" + seg + "?k=v#f")
 	}
@@ -216,6 +220,10 @@ func vpH_C14_partial() {
 	vpAssert("partial-symmetric", abs.Equals(other, cs) == other.Equals(abs, cs))
 	vpAssert("partial-reflexive", other.Equals(other, cs) && abs.Equals(abs, cs))
 	vpAssert("partial-contains-agrees", IRIs{other}.Contains(abs) == abs.Equals(other, false) && IRIs{abs}.Contains(other) == other.Equals(abs, false))
+	// the same string with and without a fragment: whatever the answer, it is the same in both orders
+	frag := IRI(string(other) + "#" + seg)
+	vpAssert("partial-fragment-symmetric", other.Equals(frag, cs) == frag.Equals(other, cs))
+	vpAssert("partial-fragment-contains-agrees", IRIs{other}.Contains(frag) == IRIs{frag}.Contains(other))
 	vpReach("end")
 }
 
